@@ -104,6 +104,8 @@ struct Ctl {
     /// delay inside every `flush`
     flush_slow_us: u64,
     flushes: u64,
+    /// number of `next` calls that have passed their gate (are about to return)
+    left: u64,
     /// delay inside every `next`
     slow_us: u64,
     nexts: u64,
@@ -202,6 +204,9 @@ impl StreamCtl {
     }
 }
 
+/// Lock-free mirror of the current stream's `left` counter (for busy-waiting racers).
+pub static LEFT_HINT: std::sync::atomic::AtomicU64 = std::sync::atomic::AtomicU64::new(0);
+
 /// `EntryIoStream` that logs `Next`, `Report`, `Flush`, `Close` events in the calling (writer)
 /// thread, answers according to the script and can be stalled inside `next`.
 pub struct RecStream {
@@ -244,6 +249,8 @@ impl EntryIoStream for RecStream {
                     g = self.ctl.inner.1.wait(g).unwrap();
                 }
             }
+            g.left += 1;
+            LEFT_HINT.store(g.left, std::sync::atomic::Ordering::Release);
             (res, g.slow_us)
         };
         if slow > 0 {
